@@ -329,11 +329,132 @@ func runC10(c *core.Ctx) {
 				sample(c, func() interface{} { return map[string]interface{}{"query": text, "defect": df.Name, "container": ck} })
 			}
 		}
+		c10DefinitionDirectives(c, s, d, dist, g0, gfs)
 		return true
 	})
-	c.R.Bound = fmt.Sprintf("base documents + %d mutations; one defect at every selection-set site (quick: every third defect kind on the mutated documents)", k)
+	c.R.Bound = fmt.Sprintf("base documents + %d mutations; one defect at every selection-set site (quick: every third defect kind on the mutated documents); 4 bad directives on every fragment definition and operation, fragments after and before the operations (quick: base documents)", k)
 	if !completed {
 		c.Cap("deadline reached")
 	}
 }
 
+
+// c10DefinitionDirectives: an unknown or misplaced directive written on a DEFINITION - every fragment definition and every
+// keyword operation of the document, with the fragment definitions after the operations (each spread is read before its
+// definition) and before them. An error is required when the defective definition is the operation being executed or a fragment
+// reachable from it, and then nothing of the document is resolved (the document is not valid).
+func c10DefinitionDirectives(c *core.Ctx, s *world.Schema, d *world.Doc, dist int, g0, gfs *world.Graph) {
+	if dist > 0 && !c.Thorough() {
+		return
+	}
+	baseText := d.Render(world.LOneLine)
+	bads := []struct {
+		name string
+		dir  world.Dir
+	}{
+		{"unknown-directive-on-definition", world.Dir{Name: "zq7"}},
+		{"misplaced-directive-on-definition", world.Dir{Name: "deprecated"}},
+		{"misplaced-skip-on-definition", world.Dir{Name: "skip", If: true}},
+		{"misplaced-include-on-definition", world.Dir{Name: "include", If: false}},
+	}
+	reach := func(nd *world.Doc, op *world.Op) map[string]bool {
+		seen := map[string]bool{}
+		var walk func(sels []*world.Sel)
+		walk = func(sels []*world.Sel) {
+			for _, x := range sels {
+				if x.Kind == world.SSpread && !seen[x.Name] {
+					seen[x.Name] = true
+					if f := nd.Frag(x.Name); f != nil {
+						walk(f.Sels)
+					}
+				}
+				walk(x.Sels)
+			}
+		}
+		walk(op.Sels)
+		return seen
+	}
+	ntargets := len(d.Frags) + len(d.Ops)
+	for ti := 0; ti < ntargets; ti++ {
+		for _, bd := range bads {
+			for _, first := range []bool{false, true} {
+				if first && len(d.Frags) == 0 {
+					continue
+				}
+				key := fmt.Sprintf("%s|def%d|%s|%v", baseText, ti, bd.name, first)
+				if !c.Owns(key) {
+					continue
+				}
+				nd := d.Clone()
+				nd.FragsFirst = first
+				target := ""
+				if ti < len(nd.Frags) {
+					nd.Frags[ti].Dirs = append(nd.Frags[ti].Dirs, bd.dir)
+					target = "fragment:" + nd.Frags[ti].Name
+				} else {
+					o := nd.Ops[ti-len(nd.Frags)]
+					if o.Anon {
+						if len(nd.Ops) > 1 {
+							continue
+						}
+						o.Anon = false // "query @zq7 {...}"
+					}
+					o.Dirs = append(o.Dirs, bd.dir)
+					target = "operation:" + o.Name
+				}
+				text := nd.Render(world.LOneLine)
+				ft := d.Features(s)
+				c.Nontrivial()
+				for _, op := range world.OpNames(d) {
+					if op == "Nope" {
+						continue
+					}
+					var exeOp *world.Op
+					for _, o := range nd.Ops {
+						if o.Name == op {
+							exeOp = o
+						}
+					}
+					if exeOp == nil || (op == "" && len(nd.Ops) > 1) {
+						continue
+					}
+					required := target == "operation:"+exeOp.Name || (strings.HasPrefix(target, "fragment:") && reach(nd, exeOp)[strings.TrimPrefix(target, "fragment:")])
+					for _, nc := range configsFor(s, ft, false) {
+						if nc.Cfg.Car == world.CarNative || nc.Cfg.Bind == world.BindRegisterFields {
+							continue
+						}
+						g := g0
+						if nc.Cfg.Strat == world.FS {
+							g = gfs
+						}
+						c.Eval()
+						root, run, err := world.BuildRoot(nc.Cfg, g)
+						if err != nil {
+							panic(core.EngineError{Msg: err.Error()})
+						}
+						o := world.Observe(root, run, text, op, nil)
+						attrs := map[string]string{"defect": bd.name, "container": strings.SplitN(target, ":", 2)[0], "strategy": nc.Cfg.Strat.String(), "fragments-first": fmt.Sprint(first)}
+						mk := func(msg string) worldCase {
+							return worldCase{Config: nc.Name, Query: text, Op: op, Observed: o, Diff: msg}
+						}
+						switch {
+						case o.Panic != nil:
+							c.Outcome("panic")
+							c.Violation("panic", map[string]string{"site": o.Panic.Site, "class": o.Panic.Class, "defect": bd.name, "strategy": nc.Cfg.Strat.String()}, mk(o.Panic.Value))
+						case required && len(o.Errors) == 0:
+							c.Outcome("missing-error")
+							c.Violation("missing-error", attrs, mk("no error reported for the directive on the "+target))
+						case required && len(run.Args) > 0:
+							c.Outcome("resolver-invoked")
+							c.Violation("resolver-invoked", attrs, mk(fmt.Sprintf("the document is not valid, yet %d resolver calls were made", len(run.Args))))
+						case len(o.Errors) > 0:
+							c.Outcome("ok-rejected")
+						default:
+							c.Outcome("ok-defect-elsewhere")
+						}
+					}
+				}
+			}
+		}
+	}
+}
